@@ -134,7 +134,8 @@ package mkvs
 //@ func treeOverlayIterator.updateIteratorPosition
 //@   props C03
 //@   requires it != nil && it.tree != nil
-//@   modifies GIterPos, it.key, it.value
+//@   modifies GIterPos, *it
+//@   ensures it.inner == old(it.inner) && it.tree == old(it.tree) && it.overlayValid == old(it.overlayValid)
 //@   loop 1 invariant it.inner == old(it.inner) && it.tree == old(it.tree) && it.overlayValid == old(it.overlayValid)
 //@   ensures OvItClean(it)
 //@   ensures !ItValid(it.inner) && !it.overlayValid ==> it.key == nil && it.value == nil
